@@ -7,6 +7,7 @@ import (
 	"fmt"
 	"io"
 	"math/rand"
+	"reflect"
 	"strings"
 
 	"github.com/gobwas/ws"
@@ -37,12 +38,14 @@ var wopNames = [...]string{"Write", "ReadFrom", "Copy", "WriteThrough", "FlushFr
 
 // WOp is one step of a writer history.
 type WOp struct {
-	Kind   int
-	N      int   // payload size / grow size
-	Chunks []int // ReadFrom: sizes the source hands out per Read
-	SrcErr bool  // ReadFrom: source ends with an error instead of EOF
-	SrcEnd bool  // ReadFrom: the source returns its last bytes together with the end condition (n>0, err)
-	Via    int   // Write: how the application hands the bytes over (0 w.Write; 1.. through a std helper, see writeVia)
+	Kind     int
+	N        int   // payload size / grow size
+	Chunks   []int // ReadFrom: sizes the source hands out per Read
+	SrcErr   bool  // ReadFrom: source ends with an error instead of EOF
+	SrcZeros int   // ReadFrom: the source answers (0, nil) this many times before every piece (legal for an io.Reader)
+	SrcStall bool  // ReadFrom: behind its data the source answers (0, nil) for ever (never an end): io.ErrNoProgress is the way out
+	SrcEnd   bool  // ReadFrom: the source returns its last bytes together with the end condition (n>0, err)
+	Via      int   // Write: how the application hands the bytes over (0 w.Write; 1.. through a std helper, see writeVia)
 }
 
 var viaNames = [...]string{"", "io.WriteString", "io.Copy<-strings.Reader", "io.Copy<-bytes.Reader", "bytes.Buffer.WriteTo", "fmt.Fprintf", "bufio.Writer+Flush"}
@@ -90,6 +93,9 @@ func (o WOp) String() string {
 		}
 	case WOpReadFrom, WOpCopy:
 		s += fmt.Sprintf("(%d in %d reads, srcErr=%v, endWithData=%v)", o.N, len(o.Chunks), o.SrcErr, o.SrcEnd)
+		if o.SrcZeros > 0 || o.SrcStall {
+			s += fmt.Sprintf("[zero reads=%d stall=%v]", o.SrcZeros, o.SrcStall)
+		}
 	}
 	return s
 }
@@ -208,9 +214,26 @@ type chunkSrc struct {
 	fail     bool
 	withData bool
 	produced int
+	zeros    int // empty reads before every piece
+	zleft    int
+	zarmed   bool
+	stall    bool // behind the data: (0, nil) for ever
 }
 
 func (c *chunkSrc) Read(p []byte) (int, error) {
+	if c.pos >= len(c.data) && c.stall {
+		return 0, nil
+	}
+	if c.zeros > 0 && c.pos < len(c.data) {
+		if !c.zarmed {
+			c.zarmed, c.zleft = true, c.zeros
+		}
+		if c.zleft > 0 {
+			c.zleft--
+			return 0, nil
+		}
+		c.zarmed = false
+	}
 	if c.pos >= len(c.data) {
 		if c.fail {
 			return 0, ErrInjected
@@ -300,6 +323,14 @@ func drawHistory(r *eng.Run, cfg WCfg, maxOps int) []WOp {
 				left -= c
 			}
 			op.SrcErr = r.T.Chance(sim.LFault, 1, 6)
+			if r.T.Chance(sim.LFault, 1, 6) {
+				op.SrcZeros = 1 + r.T.Int(sim.LFault, 3)
+				r.Probe("copy_source_with_zero_reads")
+			}
+			if !op.SrcErr && r.T.Chance(sim.LFault, 1, 16) {
+				op.SrcStall, op.SrcEnd = true, false
+				r.Probe("copy_source_that_stalls")
+			}
 			op.SrcEnd = r.T.Chance(sim.LFault, 1, 3)
 		}
 		ops = append(ops, op)
@@ -393,11 +424,27 @@ var lastExts, lastExtsCopy []wsutil.SendExtension
 // what it put there.
 func extsIntact() bool {
 	for i := range lastExts {
-		if lastExts[i] != lastExtsCopy[i] {
+		if !sameExt(lastExts[i], lastExtsCopy[i]) {
 			return false
 		}
 	}
 	return true
+}
+
+// sameExt compares two extension values (function adapters are not
+// comparable with ==).
+func sameExt(a, b wsutil.SendExtension) bool {
+	if a == nil || b == nil {
+		return a == nil && b == nil
+	}
+	va, vb := reflect.ValueOf(a), reflect.ValueOf(b)
+	if va.Type() != vb.Type() {
+		return false
+	}
+	if va.Kind() == reflect.Func {
+		return va.Pointer() == vb.Pointer()
+	}
+	return a == b
 }
 
 // rsv2Ext is an application extension that marks every frame with RSV2.
@@ -429,7 +476,8 @@ func (c WCfg) extensions(ms *wsflate.MessageState) []wsutil.SendExtension {
 		xs = append(xs, rsv2Ext{})
 	}
 	if c.Ext3 {
-		xs = append(xs, rsv3Ext{})
+		// (Through the function adapter of the package.)
+		xs = append(xs, wsutil.SendExtensionFunc(rsv3Ext{}.SetBits))
 	}
 	return xs
 }
@@ -467,7 +515,7 @@ func ExecHistory(r *eng.Run, wr *WRun, seed uint32, check func(step int)) {
 			wr.Accepted = append(wr.Accepted, keep[:k]...)
 			wr.Offered += k
 		case WOpReadFrom, WOpCopy:
-			src := &chunkSrc{data: patBytes(seed, wr.Offered, op.N), chunks: op.Chunks, fail: op.SrcErr, withData: op.SrcEnd}
+			src := &chunkSrc{data: patBytes(seed, wr.Offered, op.N), chunks: op.Chunks, fail: op.SrcErr, withData: op.SrcEnd, zeros: op.SrcZeros, stall: op.SrcStall}
 			if op.Kind == WOpCopy {
 				ob.N, ob.Err = io.Copy(w, struct{ io.Reader }{src})
 			} else {
@@ -741,6 +789,8 @@ func c06Step(r *eng.Run, wr *WRun, tr *msgTrack, i int) {
 		r.Probe("write_through_refused_not_empty")
 	case (op.Kind == WOpReadFrom || op.Kind == WOpCopy) && op.SrcErr && ob.Err == ErrInjected:
 		r.Probe("readfrom_source_error")
+	case (op.Kind == WOpReadFrom || op.Kind == WOpCopy) && op.SrcStall && ob.Err == io.ErrNoProgress:
+		r.Probe("readfrom_source_stalled")
 	default:
 		r.Failf("unexpected_error", "step %d %s on a healthy destination returned %v", i, op, ob.Err)
 	}
@@ -763,7 +813,7 @@ func c06Step(r *eng.Run, wr *WRun, tr *msgTrack, i int) {
 		tr.sinceFlush = true
 	case WOpReadFrom, WOpCopy:
 		tr.sinceFlush = true
-		if !(op.SrcEnd && !op.SrcErr && op.N > 0) {
+		if !(op.SrcEnd && !op.SrcErr && !op.SrcStall && op.N > 0) {
 			// (A source that hands its last bytes over together with io.EOF
 			// lets the writer know that the data has ended before the buffer
 			// would have to be flushed: such a copy counts like plain writes
